@@ -134,7 +134,8 @@ class Ref2:
     def values(self):
         return list(self.xs) + list(self.ys) + [x for i in range(self.nx) for j in range(self.ny) for x in self.vars[(i, j)]]
 
-# expected-stream entries: ('i', n) | ('x', exact value) | ('~', Fraction, abs tol) | ('|', [(Fraction, abs tol), ...]) any of | ('P',) | ('?',)
+# expected-stream entries: ('i', n) | ('x', exact value) | ('~', Fraction, abs tol) | ('|', [(Fraction, abs tol), ...]) any of |
+#                          ('[]', lo, hi, abs tol) any value in the interval | ('P',) | ('?',)
 def X(v): return ('x', Fraction(v))
 def XV(v): return [('i', len(v))] + [X(x) for x in v]
 def AV(v, tols): return [('i', len(v))] + [('~', Fraction(x), t) for x, t in zip(v, tols)]
@@ -190,11 +191,18 @@ def interp_expected(m, x):
         if xs[k] < xf < xs[k + 1]:
             d, node = min((xf - xs[k], k), (xs[k + 1] - xf, k + 1))
             if d <= WINDOW_IN:
-                # well inside the implementation's 1e-7 snapping window around `node`, and inside the grid: the cell's own line or the
-                # line of the other cell that shares the node (extrapolated over d) may be used -- nothing else
+                # well inside the implementation's 1e-7 snapping window around `node`, and inside the grid.  C19 quantifies over nodes,
+                # mid-cells and positions at least 1e-6 from every node; inside the window it only says that the neighbouring cell's
+                # line MAY be used.  Accepted: any value in the hull of {the nodal value, the cell's own line at x, the line of the other
+                # cell sharing the node extrapolated over d} plus the rounding tolerance (what interp_near_node_bound proves) -- an
+                # implementation returning the nodal values there satisfies the property; anything outside the hull is reported
                 cells = [c for c in (node - 1, node) if 0 <= c <= n - 2]
                 alts = [line(c) for c in cells]
-                return [('|', [a[v] for a in alts]) for v in range(len(m.vars[k]))]
+                out = []
+                for v in range(len(m.vars[k])):
+                    cands = [Fraction(m.vars[node][v])] + [a[v][0] for a in alts]
+                    out.append(('[]', min(cands), max(cands), max(a[v][1] for a in alts)))
+                return out
             if d < Fraction(1, 10 ** 6):
                 return None
             l = [Fraction(v) for v in m.vars[k]]; r = [Fraction(v) for v in m.vars[k + 1]]
@@ -253,7 +261,7 @@ def ref_step1(m, op):
         _chk(n >= 1)
         e = interp_expected(m, a[0])
         if e is None: return [('i', m.nvars)] + [('?',)] * m.nvars, None
-        return [('i', m.nvars)] + [x if x[0] == '|' else ('~', x[0], x[1]) for x in e], None
+        return [('i', m.nvars)] + [x if x[0] in ('|', '[]') else ('~', x[0], x[1]) for x in e], None
     if name == "trap":
         _chk(n >= 1)
         s, t = trap1_expected(m, a[0]); return [('~', s, t)], None
@@ -406,6 +414,9 @@ def _item_ok(elt, e, g):
     if e[0] == '|':
         if any(abs(v - c) <= t for c, t in e[1]): return None
         return "reference any of %s (tolerance %.3g), implementation %r" % ([float(c) for c, _ in e[1]], float(e[1][0][1]), float(v))
+    if e[0] == '[]':
+        if e[1] - e[3] <= v <= e[2] + e[3]: return None
+        return "reference any value in [%r, %r] (tolerance %.3g), implementation %r" % (float(e[1]), float(e[2]), float(e[3]), float(v))
     if e[0] == 'x': return None if v == e[1] else "reference %s, implementation %s" % (_show(e), float(v))
     if e[0] == '~': return None if abs(v - e[1]) <= e[2] else "reference %s (tolerance %.3g), implementation %r" % (_show(e), float(e[2]), float(v))
     raise ValueError(e)
@@ -413,4 +424,5 @@ def _item_ok(elt, e, g):
 def _show(e):
     if e[0] in ('x', '~'): return repr(float(e[1])) if e[1].denominator not in (1,) else str(e[1].numerator)
     if e[0] == '|': return "any of %s" % [float(c) for c, _ in e[1]]
+    if e[0] == '[]': return "any value in [%r, %r]" % (float(e[1]), float(e[2]))
     return repr(e)
